@@ -754,16 +754,20 @@ Fixpoint pairwise_lt (l u : list Q) : bool :=
   | _, _ => true
   end.
 
-(* variables(i)->dist2(lower, upper) < 1.0e-12: walls that coincide *)
-Fixpoint pairwise_apart (l u : list Q) : bool :=
+(* variables(i)->dist2(lower, upper) < 1.0e-12 * width_i^2: walls that coincide, measured in units of the variable's
+   width (repair of the C03 slice; before it the threshold was the absolute 1.0e-12).  [ws]: the widths, 1 when the
+   list is shorter *)
+Fixpoint pairwise_apart (ws l u : list Q) : bool :=
   match l, u with
-  | a :: lr, b :: ur => negb (Qltb ((b - a) * (b - a)) (1 # 1000000000000)) && pairwise_apart lr ur
+  | a :: lr, b :: ur =>
+      let w := match ws with w :: _ => w | [] => 1 # 1 end in
+      negb (Qltb ((b - a) * (b - a)) ((1 # 1000000000000) * w * w)) && pairwise_apart (tl ws) lr ur
   | _, _ => true
   end.
 
 Record wallsx := mkWallsx { wx_lower : list Q; wx_upper : list Q; wx_lk : Q; wx_uk : Q }.
 
-Definition walls_validate (n : nat) (e : env) : errs * wallsx :=
+Definition walls_validate (ws : list Q) (n : nat) (e : env) : errs * wallsx :=
   let '(fk, p0) := ereal e "forceConstant" (1 # 1) in
   let x0 := flag_input (p0 || Qltb fk Q0) no_errs in                                   (* invalid force constant (the return value is dropped) *)
   (* both lists are pre-sized to n before they are read; an absent one is then cleared *)
@@ -777,7 +781,7 @@ Definition walls_validate (n : nat) (e : env) : errs * wallsx :=
     let x2 := flag_input (p1 || p2 || (Nat.eqb (List.length lw) 0 && egiven e "lowerWallConstant")
                           || (Nat.eqb (List.length uw) 0 && egiven e "upperWallConstant")) x1 in   (* check_keywords *)
     if negb (Nat.eqb (List.length lw) 0) && negb (Nat.eqb (List.length uw) 0) then
-      if negb (pairwise_lt lw uw) || negb (pairwise_apart lw uw) then (flag_input true x2, mkWallsx lw uw lk uk)
+      if negb (pairwise_lt lw uw) || negb (pairwise_apart ws lw uw) then (flag_input true x2, mkWallsx lw uw lk uk)
       else if Qeq_bool (lk * uk) Q0 then (flag_input true x2, mkWallsx lw uw lk uk)
       else (x2, mkWallsx lw uw lk uk)
     else (x2, mkWallsx lw uw lk uk).
